@@ -67,7 +67,8 @@ func cmdSelectors(args []string) {
 		r, err = g.Filter(lint.FilterOptions{ExcludeNames: []string{padded}})
 		faithful = err == nil && len(r.Names()) == len(names)-1 && !contains(r.Names(), n)
 		emit("name", "lib-exclude", n, listed, listed, err == nil, faithful)
-		if cli != "" && (i%cliEvery == int(seed)%cliEvery || !listed) && n != "" {
+		odd := strings.IndexFunc(n, func(r rune) bool { return !(r == '_' || (r >= 'a' && r <= 'z') || (r >= '0' && r <= '9')) }) >= 0
+		if cli != "" && (i%cliEvery == int(seed)%cliEvery || !listed || odd) && n != "" { // names with unusual characters always go through the CLI
 			emit("name", "cli-include", n, listed, listed, runCLI("-includeNames", padded), true)
 			emit("name", "cli-exclude", n, listed, listed, runCLI("-excludeNames", padded), true)
 		}
